@@ -175,6 +175,29 @@ def parse(text: str):
     return v
 
 
+def extract_tagged(text: str, tag: str):
+    """All values TLC printed (PrintT) of the form <<"tag", ...>> anywhere in `text`, even when TLC
+    wrapped them over several lines.  Returns a list of Python lists."""
+    out = []
+    needle = '"' + tag + '"'
+    i = 0
+    while True:
+        k = text.find(needle, i)
+        if k < 0:
+            return out
+        j = text.rfind("<<", 0, k)
+        if j < 0 or text[j + 2 : k].strip() != "":
+            i = k + len(needle)
+            continue
+        p = _P(text)
+        p.i = j
+        try:
+            out.append(p.value())
+            i = p.i
+        except ParseError:
+            i = k + len(needle)
+
+
 def parse_state(text: str) -> dict:
     """Parse a TLC state `/\\ v1 = e1 \\n /\\ v2 = e2 ...` into {var: value}."""
     p = _P(text)
